@@ -115,9 +115,10 @@ def run(tier, seed, res):
     for i, (P, T) in enumerate(groups):
         cases = mb.generate(case(P), per, seed * 1000 + i)
         batches.append(mb.Batch(P, "hdr %d %d\n" % (P, T), cases, tag="P%dT%d" % (P, T)))
-    _regress(b, res)
+    bg = mb.in_background(_regress, b, res)
     mb.run_batches(PROP, b, batches, res, "cases", timeout=300 if quick else 1800, max_parallel=4,
                    tq_ms=5000 if quick else 20000)
+    bg.join()
     floor = 60 if quick else 1500
     if not res.violations and res.distinct_nontrivial < floor:
         res.inconclusive = "only %d non-trivial cases executed (floor %d)" % (res.distinct_nontrivial, floor)
